@@ -76,7 +76,17 @@ def split_complete(eng, fq):
     env = eng.make_params(ex, fref, c)
     for nm, pre in eng.norm_named(c.get("requires"), "pre"):
         ctx.assume(ex.spec_bool(pre, env))
-    cases = [ex.spec_bool(s, env) for s in c["split"]]
+    cases = []
+    for sp in c["split"]:
+        if isinstance(sp, dict):
+            parts = []
+            for k, v in (sp.get("bind") or {}).items():
+                parts.append(ex.spec_bool("%s == %r" % (k, v), env))
+            if sp.get("assume"):
+                parts.append(ex.spec_bool(sp["assume"], env))
+            cases.append(z3.And(parts) if parts else z3.BoolVal(True))
+        else:
+            cases.append(ex.spec_bool(sp, env))
     from pyvc.symexec import VC
     vc = VC("split", "split-complete", list(ctx.pc), z3.Or(cases), None)
     r = eng.discharge(vc, ctx.axioms(), ctx)
@@ -311,10 +321,24 @@ def check_property(pid, a, seed, timeout_ms, t0):
                 violations.append(viol)
         for kl in driver.get("known", []):
             known_lines.append(kl)
-    # known findings attached to deductive carve-outs: replay the witness
-    for k in kf:
-        if k.get("witness_cmd"):
-            continue
+    # known findings: replay every witness on the real code; still failing -> KNOWN-FINDING line
+    if kf and not a.no_bounded:
+        fd, fpath = tempfile.mkstemp(suffix=".json")
+        os.close(fd)
+        try:
+            r = run_real(["-m", "bounded.run", "findings", fpath, pid], timeout=600)
+            if r.returncode != 0:
+                errors.append("known-finding replay failed: %s" % r.stderr[-1500:])
+            else:
+                with open(fpath) as f:
+                    for w in json.load(f):
+                        if w["reproduces"]:
+                            known_lines.append("%s %s: %s (witness observed: %s)" % (w.get("function"), w["id"],
+                                                                                   w.get("what"), w["observed"]))
+                        else:
+                            print("NOTE: known finding %s no longer reproduces (observed %s)" % (w["id"], w["observed"]))
+        finally:
+            os.unlink(fpath)
     for line in sorted(set(known_lines)):
         print("KNOWN-FINDING: property=%s %s" % (pid, line))
 
